@@ -309,3 +309,40 @@ Theorem streamed_backward_refuted :
     map (obs_cres bs f) (snd (c_run dated bs f (cinit_k false) ops)) = map (spec_cobs dated f) ops.
 Proof. exact CachesStreamProofs.streamed_backward_refuted. Qed.
 Print Assumptions streamed_backward_refuted.
+
+(* ---------------------------------------------------------------------------------------------
+   A log whose timestamps carry NO YEAR at driver level (Model/Caches.v, section YearLess: c_clear_syslines,
+   c_remove_sysline, c_year_loop = the loop of SyslogProcessor::process_missing_year with the year as reader-side state,
+   c_stream_year = stages 1 (end: disable_drop_data for a streamed file) - 2 - 3; tied on every run of the check against
+   SyslogProcessor on plain / .gz / .bz2 / .lz4 files with set modification times, with year boundaries).
+
+   PROVED (for every oracle, in particular the oracle of any ONE year): clear_syslines establishes the cache invariant of
+   that oracle whatever oracle filled the caches before (block-zero analysis dates with the filler year; only Line objects
+   survive and they do not depend on the oracle); remove_sysline keeps it and, unlike drop_sysline, removes the range
+   with the message, so nothing dangles; hence every find_sysline_year call of the reverse pass between two changes of
+   the year is answered as the spec of that year's oracle says and cannot panic (backward calls: streamed_drop_disabled_refines
+   / tar_member_refines give the block-level safety with drops disabled).
+
+   NOT PROVED (full statement): yearless_driver_complete - for every bs > 0, file, year-less oracle dated_y (with C11's
+   domain hypotheses: the datedness of a line does not depend on the year, Issue #245 excluded), mtime year Y, container
+   and drop plan:  obs (c_stream_year dated_y bs f TOL Y None None plan (gate state)) = the spec groups of f, the i-th
+   dated dated_y (Some y_i) with (y_i) = the years Model/Year.v assign_years 2 off Y infers; no Panic.
+   Missing: (1) the invariant ACROSS a change of the year: messages dated with the later year stay in `syslines` and the
+   LRU cache, and sr_inv is stated for one oracle; it needs sr_inv "up to the instant" - the machine is parametric in the
+   instant (its control flow uses `dated` only through Some / None) - plus the provenance of instants (remove_sysline
+   clears both LRU caches at every change of the year, so inside one call all parses use the current year);
+   (2) c_year_loop = Year.walk on the instants of the spec groups (induction from the last group upwards; the stop tests);
+   (3) stage 3 is answered from `syslines` alone (a check_store hit does not consult the oracle, so the filler-year oracle
+   of stage 3 is never asked for a stored message).  The composed program (WP-H) would use yearless_driver_complete in
+   the form of streamed_driver_struct; until then it keeps the pure reader for year-less files. *)
+From S4.Proofs Require Import CachesYearProofs.
+Theorem yearless_reverse_pass_partial : forall dated bs (f : file) st fo, 0 < bs ->
+  (lr_inv bs f (s_lr st) ->
+     @rinv dated bs f (lr_inv bs f) (c_clear_syslines st) /\ no_dangling (c_clear_syslines st)) /\
+  (@rinv dated bs f (lr_inv bs f) st -> no_dangling st ->
+     @rinv dated bs f (lr_inv bs f) (c_remove_sysline bs st fo) /\ no_dangling (c_remove_sysline bs st fo)) /\
+  (forall st' r p, @rinv dated bs f (lr_inv bs f) st -> no_dangling st -> c_find_sysline dated bs f st fo = (st', r, p) ->
+     @rinv dated bs f (lr_inv bs f) st' /\ no_dangling st' /\ r <> Panic /\ sres_ok dated bs f st fo r).
+Proof. exact CachesYearProofs.yearless_ops_keep_invariant. Qed.
+Print Assumptions yearless_reverse_pass_partial.
+
